@@ -279,7 +279,7 @@ theorem between_inclusive (cx : EvalCtx) (e : Entry) (cache : RxCache) (x lo hi 
     conforms cx e cache (betweenTree x lo hi) = .ok (.val (decide (n ≤ a ∧ a ≤ m)), cache) := by
   have c1 := int_atom_spec cx.cfg.today cache fv vlo .Gte a n (decide (a ≥ n)) hty ha hfx hvl hil hn rfl
   have c2 := int_atom_spec cx.cfg.today cache fv vhi .Lte a m (decide (a ≤ m)) hty ha hfx hvh hih hm rfl
-  simp only [betweenTree, conforms, hx, hlo, hhi, c1, c2]
+  simp only [betweenTree, conforms, compareAtom, patternOp, Bool.false_and, Bool.false_eq_true, if_false, hx, hlo, hhi, c1, c2]
   by_cases h1 : n ≤ a <;> by_cases h2 : a ≤ m <;> simp [h1, h2, CmpRes.and, and_beq_and]
 
 /-- `column OP column` compares the two attributes of the same entry: both operands are evaluated on `e`,
@@ -287,8 +287,34 @@ theorem between_inclusive (cx : EvalCtx) (e : Entry) (cache : RxCache) (x lo hi 
 theorem column_vs_column (cx : EvalCtx) (e : Entry) (cache : RxCache) (f g : Field) (op : Op) (fv gv : Variant) (m1 m2 : Memo)
     (hf : columnValue cx (some e) [] (.field false f) = .ok (fv, m1))
     (hg : columnValue cx (some e) [] (.field false g) = .ok (gv, m2)) :
-    conforms cx e cache (.cmp (.field false f) op (.field false g)) = compareValues cx.cfg.today cache fv op gv := by
+    conforms cx e cache (.cmp (.field false f) op (.field false g)) = compareAtom cx.cfg.today cache fv op gv := by
   simp only [conforms, hf, hg]
+
+/-- an atom whose operator is no pattern operator (or whose left value is text) is the typed comparison -/
+theorem atom_is_typed_comparison (today : Int) (cache : RxCache) (fv v : Variant) (op : Op)
+    (h : patternOp op = false ∨ fv.ty = .string) :
+    compareAtom today cache fv op v = compareValues today cache fv op v := by
+  unfold compareAtom
+  rcases h with h | h
+  · simp [h]
+  · have hb : (fv.ty != VType.string) = false := by rw [h]; rfl
+    simp [hb]
+
+/-- LIKE / regex operators against a column of any type match the *text* of its value: the verdict is the
+    one the same operator gives on the text column holding that text (D74 fix: they used to be false,
+    and so were their negations) -/
+theorem pattern_on_any_type (today : Int) (cache : RxCache) (fv v : Variant) (op : Op)
+    (hp : patternOp op = true) (hex : fv.exact = true) :
+    compareAtom today cache fv op v = compareValues today cache (.ofString fv.text) op (.ofString v.text) := by
+  unfold compareAtom
+  by_cases hs : fv.ty = .string
+  · have hb : (fv.ty != VType.string) = false := by rw [hs]; rfl
+    simp only [hb, Bool.and_false, Bool.false_eq_true, if_false]
+    cases op <;> simp [patternOp] at hp <;> simp [compareValues, hs, Variant.ofString]
+  · have : (fv.ty != .string) = true := by
+      cases hty : fv.ty <;> first | rfl | exact absurd hty hs
+    simp only [hp, this, Bool.and_self, if_true, hex, Bool.not_true, Bool.false_eq_true, if_false]
+    cases op <;> simp [patternOp] at hp <;> simp [compareValues, Variant.ofString]
 
 /-- `size between 10 and 20`, `size not between 10 and 20`, `size >= hardlinks` are instances (hypotheses met) -/
 example :
